@@ -45,7 +45,7 @@ GraphMenu == { D("TYPE", <<"@t1", "any">>, FALSE), D("Body", <<"any">>, FALSE), 
 \* contexts across files: an explicit context opened by the includer, implicit contexts and methods with their
 \* own path inside the included file (the new-root rule must not leave the includer's explicit context)
 CtxRootMenu == { D("MACRO", <<"@m1">>, TRUE), D("URL", <<"pa">>, TRUE), D("URL", <<"pa">>, FALSE), CloseTok, Inc1("a.jst"), D("GET", <<"pb">>, FALSE) }
-CtxOtherMenu == { D("URL", <<"pa">>, FALSE), D("URL", <<"pai">>, TRUE), D("GET", <<"pb">>, FALSE), D("GET", <<>>, FALSE), D("RESP", <<"any">>, FALSE), CloseTok, Inc1("b.jst") }
+CtxOtherMenu == { D("URL", <<"pa">>, FALSE), D("URL", <<"pai">>, TRUE), D("GET", <<"pb">>, FALSE), D("GET", <<>>, FALSE), D("RESP", <<"any">>, FALSE), CloseTok }
 Menu == IF Variant = "graphs" THEN GraphMenu ELSE CtxRootMenu
 OtherMenu == IF Variant = "graphs" THEN GraphMenu ELSE CtxOtherMenu
 RareMenu == IF Variant # "graphs" THEN {} ELSE
